@@ -1088,9 +1088,14 @@ class Literal(Variable[T]):
         original_data = data
         data = [data]
         if not type_:
-            original_data_lst = make_list(original_data)
-            first_value = original_data_lst[0] if len(original_data_lst) > 0 else None
-            type_ = type(first_value) if first_value else None
+            # building a literal must not run user code: only peek into builtin sequences, never iterate an arbitrary
+            # iterable (it may be a generator) and never truth-test the value
+            first_value = None
+            if isinstance(original_data, (list, tuple)):
+                first_value = original_data[0] if len(original_data) > 0 else None
+            elif not is_iterable(original_data):
+                first_value = original_data
+            type_ = type(first_value) if first_value is not None else None
         if name is None:
             if type_:
                 name = type_.__name__
